@@ -22,8 +22,8 @@ import Optyx.Py.Compile
 import Optyx.Py.Vars
 import Optyx.Py.GradIter
 
-namespace Optyx.Drive
-open Optyx Optyx.Py
+namespace Optyx.Drive.CompileNs
+open Optyx Optyx.Py Optyx.Drive
 
 def showNats (l : List Nat) : String := "(" ++ " ".intercalate (l.map toString) ++ ")"
 
@@ -93,7 +93,7 @@ def canonNames (vs : List Var) : String :=
   let sorted := names.toArray.qsort (· < ·) |>.toList
   "(" ++ " ".intercalate (sorted.map fun n => "\"" ++ n ++ "\"") ++ ")"
 
-def handleCompile (cmd : String) (args : List Sexp) : Option String :=
+def handle (cmd : String) (args : List Sexp) : Option String :=
   match cmd, args with
   | "compile", [e, .list vs, .atom thr] =>
     some <| match e.toExpr, Sexp.toVars vs, thr.toNat? with
@@ -153,5 +153,12 @@ def handleCompile (cmd : String) (args : List Sexp) : Option String :=
       | some e => toString (wfE e)
       | none => "bad-input"
   | _, _ => none
+
+end Optyx.Drive.CompileNs
+
+namespace Optyx.Drive
+
+/-- handler of the compile / evaluate / traversal unit (C01, C15) -/
+def handleCompile (cmd : String) (args : List Sexp) : Option String := CompileNs.handle cmd args
 
 end Optyx.Drive
